@@ -280,7 +280,7 @@ def _work(ctx: Ctx, item):
                         "first_ops": [jsonop(o) for o in oplist[:3]]})
         return res
 
-    ctx.hyp(one, ops(), max_examples=n, name="isolation")
+    ctx.hyp(one, ops(), max_examples=n, name="isolation", rounds=3, shrink=not ctx.quick)
 
 
 def run(ctx: Ctx):
